@@ -353,3 +353,89 @@ func Start2(R int, leader bool, selfID, otherID party.ID) protocol.StartFunc {
 		return &Rnd2{Helper: helper, leader: leader, R: R, k: 1, acc: H([]byte("seed"), seed)}, nil
 	}
 }
+
+// ---- two-party variant with two messages in flight ("commit, then open") ------------------------
+//
+// Three rounds.  The leader speaks in two consecutive rounds: round 1 (no input) emits #1, round 2 (no
+// input) emits #2, round 3 consumes the follower's #3.  The follower consumes #1 in round 1, #2 in
+// round 2 and then emits #3; its round 3 needs no input.  With two messages of one sender in flight
+// the later one may arrive first and must be kept for the round it belongs to.
+
+type Rnd2B struct {
+	*round.Helper
+	leader bool
+	k      int
+	acc    []byte
+	got    []byte
+	stored bool
+}
+
+func (r *Rnd2B) Number() round.Number { return round.Number(r.k) }
+func (r *Rnd2B) MessageContent() round.Content {
+	if r.leader == (r.k == 3) {
+		return &Msg{} // leader: only round 3 has an input; follower: rounds 1 and 2
+	}
+	return nil
+}
+func (r *Rnd2B) VerifyMessage(msg round.Message) error {
+	m, ok := msg.Content.(*Msg)
+	if !ok || m == nil {
+		return round.ErrInvalidContent
+	}
+	if len(m.Payload) != 32 || int(m.Nr) != r.k {
+		return errors.New("vproto2b: wrong payload or message number")
+	}
+	return nil
+}
+func (r *Rnd2B) StoreMessage(msg round.Message) error {
+	if r.stored {
+		return errors.New("vproto2b: message processed twice")
+	}
+	r.stored = true
+	r.got = msg.Content.(*Msg).Payload
+	return nil
+}
+func (r *Rnd2B) Finalize(out chan<- *round.Message) (round.Session, error) {
+	acc := H([]byte("acc2b"), r.acc, []byte{byte(r.k)}, r.got)
+	other := r.OtherPartyIDs()[0]
+	emit := func(nr int) error {
+		return r.SendMessage(out, &Msg{Nr: uint16(nr), Payload: H([]byte("m2b"), []byte(r.SelfID()), []byte{byte(nr)}, acc)}, other)
+	}
+	switch {
+	case r.leader && r.k <= 2:
+		if err := emit(r.k); err != nil {
+			return r, err
+		}
+	case !r.leader && r.k == 2:
+		if err := emit(3); err != nil {
+			return r, err
+		}
+	}
+	if r.k == 3 {
+		return r.ResultRound(&Result{View: acc, Full: acc}), nil
+	}
+	return &Rnd2B{Helper: r.Helper, leader: r.leader, k: r.k + 1, acc: acc}, nil
+}
+
+func (r *Rnd2B) StateKey() []byte {
+	s := byte(0)
+	if r.stored {
+		s = 1
+	}
+	return H([]byte{byte(r.k), s, 'b'}, r.acc, r.got)
+}
+
+func Start2B(leader bool, selfID, otherID party.ID) protocol.StartFunc {
+	return func(sessionID []byte) (round.Session, error) {
+		info := round.Info{ProtocolID: "vproto2b", FinalRoundNumber: 3, SelfID: selfID, PartyIDs: []party.ID{selfID, otherID}, Threshold: 1}
+		helper, err := round.NewSession(info, sessionID, nil)
+		if err != nil {
+			return nil, err
+		}
+		seed := make([]byte, 32)
+		if _, err := rand.Read(seed); err != nil {
+			return nil, err
+		}
+		return &Rnd2B{Helper: helper, leader: leader, k: 1, acc: H([]byte("seed"), seed)}, nil
+	}
+}
